@@ -136,8 +136,8 @@ theorem xev26_fail {c : Nat} {run G rest : List Nat} (hs : Suf text p (c :: (run
         simp [List.isPrefixOf, this])
   have h1 := Ev.seq_fail2 h32 hsk hstr (d := run.length + G.length + 100)
   have h31 := evr (gr31 text) (by omega)
-    (Ev.seq_fail1 (Ev.seq_fail1 (Ev.seq_fail1 h1 (d := run.length + G.length + 101)
-      (b := .star (.ref 41))) (d := run.length + G.length + 102) (b := .star (.seq (.str [44]) (.ref 41))))
+    (Ev.seq_fail1 (Ev.seq_fail1 h1 (d := run.length + G.length + 101)
+      (b := .opt (.seq (.ref 41) (.star (.seq (.str [44]) (.ref 41))))))
       (d := run.length + G.length + 103) (b := .str [41])) (d := run.length + G.length + 104) (at_ := .nonAtomic)
   exact (evr (gr26 text) (by omega) h31 (d := run.length + G.length + 106)).mono (by omega)
 
